@@ -35,7 +35,7 @@ TECHNIQUE = "Lean 4 ownership-ledger invariant + tracking-allocator differential
 
 def generate(rng, tier):
     quick = tier == "quick"
-    cases = c12.generate(rng, tier, allocs=["track", "track", "simple"], nonfinite=True)[: (300 if quick else 30000)]
+    cases = c12.generate(rng, tier, allocs=["track", "track", "simple"], nonfinite=True, parses=True)[: (300 if quick else 30000)]
     docs = [G.gen_doc(rng, maxdepth=4) for _ in range(200 if quick else 10000)]
     bad = []
     for d in docs[:80 if quick else 3000]:
